@@ -552,7 +552,6 @@ func ruleCmpShape(r *core.Report, ruleID string) {
 		r.Check(sign(gt, token.GTR), ruleID, "DistanceGt", p.Pos(gt.Pos()), "DistanceGt(x,a,b) is DistanceCmp(x,a,b) > 0", "DistanceGt is not DistanceCmp(x,a,b) > 0 on its own arguments in order")
 	}
 
-
 	// tie-break after the loop: 0 is returned only when x is exhausted (len(x) == l, so the two
 	// distances are the same string) or when a and b have the same length
 	{
